@@ -95,7 +95,15 @@ def run_case(case):
         return {'skip': 'no-source-architecture', 'tags': tags}
     # build the supplementary graph
     sg = SupDSG()
-    snode = {i: NamedNode('P%02d' % i) for i in range(sup['n'])}
+    if case.get('_i', 0) % 4 == 1:
+        # SupNodes that share a name and differ in their reference only -- also only in the *type* of the reference (1 and '1'
+        # are different nodes: identity is name + repr(ref))
+        from adsg_core.graph.sup.nodes import SupNode
+        refs = [1, '1', None, 'None', 1.5, '1.5', (1, 2), '(1, 2)', 2, '2', True, 'True', 0, '0', 'x', "'x'"]
+        snode = {i: SupNode('P%d' % (i // len(refs)), ref=refs[i % len(refs)]) for i in range(sup['n'])}
+        tags.append('sup-nodes-with-references')
+    else:
+        snode = {i: NamedNode('P%02d' % i) for i in range(sup['n'])}
     for i in range(sup['n']):
         sg.add_node(snode[i])
     sg.add_edges([(snode[a], snode[c]) for a, c in sup['edges']])
